@@ -278,7 +278,7 @@ impl Property for P {
         strategy()
     }
     fn cases(&self, tier: Tier) -> u32 {
-        tier.pick(2500, 30000)
+        tier.pick(10000, 100000)
     }
     fn sweeps(&self, _tier: Tier) -> Vec<(String, Vec<Case>)> {
         let cells: Vec<Case> = gen::all_cells(&r::Suite::all48())
